@@ -329,11 +329,20 @@ def build_session_with_burn_in(start, end, kind, weekday, rng):
     from qstrader.trading.backtest import BacktestTradingSession
     from qstrader.asset.universe.static import StaticUniverse
     from qstrader.alpha_model.fixed_signals import FixedSignalsAlphaModel
+    import pytz
     span = end - start
     burn = start + span * rng.choice([0.3, 0.5, 0.8])
     kw = {'rebalance_weekday': weekday} if kind == 'weekly' else {}
-    return BacktestTradingSession(pts(start), pts(end), StaticUniverse(['EQ:AAA']), FixedSignalsAlphaModel({'EQ:AAA': 1.0}),
-                                  rebalance=kind, long_only=True, cash_buffer_percentage=0.05, burn_in_dt=pts(burn),
+    # the same UTC instants, with the zone spelled in the three usual ways (pytz.UTC, datetime.timezone.utc, 'UTC')
+    s_, e_, b_ = pts(start), pts(end), pts(burn)
+    k = (start.toordinal() + end.toordinal()) % 3
+    if k == 0:
+        s_ = s_.tz_convert(pytz.UTC)
+    elif k == 1:
+        e_ = e_.tz_convert(pytz.UTC)
+        b_ = b_.tz_convert('UTC')
+    return BacktestTradingSession(s_, e_, StaticUniverse(['EQ:AAA']), FixedSignalsAlphaModel({'EQ:AAA': 1.0}),
+                                  rebalance=kind, long_only=True, cash_buffer_percentage=0.05, burn_in_dt=b_,
                                   data_handler=_NoData(), **kw)
 
 
